@@ -131,6 +131,7 @@ class MasterSim(object):
         self.down_since = {}
         self.vanished = {}         # server -> time its presence vanished
         self.last_info = None
+        self._cycle_kind = 'init'
         self.cycles = 0
         self.quiescent_checks = list(
             getattr(self, 'quiescent_checks_init', []))
@@ -323,8 +324,20 @@ class MasterSim(object):
                     traits = 0
                     for tname in rec.get('traits', []):
                         traits |= self.trait_bits.get(tname, 0)
+                    self._last_alloc_name = '/'.join(
+                        re.split('[/:]', rec['name']))
                     return rec.get('partition'), traits, assign['priority']
+        self._last_alloc_name = '_default/%s' % key
         return '_default', 0, 1
+
+    def reference_assignment(self, name):
+        """(allocation path, priority) the loader must give the instance."""
+        _label, _traits, prio = self.assignment_of(name)
+        alloc = self._last_alloc_name
+        declared = self.decl_apps[name].get('prio')
+        if declared is not None and int(declared) != -1:
+            prio = int(declared)
+        return alloc, prio
 
     def refresh_app_decl(self):
         """Recompute label/traits of every instance from the loaded
@@ -349,6 +362,8 @@ class MasterSim(object):
         self.master_client = fakezk.Client(self.tree)
         backend = zkbackend.ZkBackend(self.master_client)
         self.decl_servers = {}
+        self.alloc_loaded = []
+        self.groups_loaded = {}
         self.master = master_mod.Master(backend, 'cell')
         self.outstanding = None
         self.triggers = []
@@ -362,8 +377,8 @@ class MasterSim(object):
             on_phase(self, 'loaded')
         for callback in self.on_restart:
             callback(self, 'loaded')
+        self._cycle_kind = 'init'
         self.master.init_schedule()
-        self._after_cycle(kind='init')
         if on_phase:
             on_phase(self, 'scheduled')
         for callback in self.on_restart:
@@ -434,8 +449,8 @@ class MasterSim(object):
         self.master.process_complete.setdefault(
             event[0], self.master.backend.event_object())
         self._guard(master_mod.Master.process.__wrapped__, self.master, event)
-        if self.generation == generation:
-            self._observe_presence()
+        if self.generation == generation and event[0] == z.SERVER_PRESENCE:
+            self._observe_presence(set(event[1]))
         self.count('events_processed')
         return True
 
@@ -465,28 +480,33 @@ class MasterSim(object):
                         'reschedule(): %r' % (err,))
                 raise
 
+        self._cycle_kind = kind
         self._guard(step)
-        if self.generation == generation:
-            self._after_cycle(kind=kind)
         return True
 
     def on_cycle(self, info):
+        """Called by the capture wrapper as soon as Cell.schedule() returns
+        (inside reschedule()/init_schedule(), before publication): the model
+        level oracles run here, so a master that dies while publishing does
+        not hide what the cycle computed."""
         self.last_info = info
+        self._after_cycle(kind=self._cycle_kind)
 
-    def _observe_presence(self):
-        """The master has just looked at presence: close/open down episodes."""
+    def _observe_presence(self, present=None):
+        """The master has just looked at presence (processed a presence event
+        with that children list, or loaded the model): open/close down
+        episodes by ground truth (presence node absent = server is down)."""
         now = self.clock.peek()
-        present = set(self.tree.nodes[z.SERVER_PRESENCE].children)
+        if present is None:
+            present = set(self.tree.nodes[z.SERVER_PRESENCE].children)
         for name in list(self.master.servers):
-            server = self.master.servers[name]
-            if server.state is scheduler.State.down:
+            if name not in present:
                 if name not in self.down_since:
                     t_lo = self.vanished.get(name, now)
                     self.down_since[name] = (min(t_lo, now), now)
             else:
                 self.down_since.pop(name, None)
-                if name in present:
-                    self.vanished.pop(name, None)
+                self.vanished.pop(name, None)
         for name in list(self.down_since):
             if name not in self.master.servers:
                 self.down_since.pop(name)
@@ -587,6 +607,8 @@ class MasterSim(object):
         zkutils.put(client, z.path.server_presence(name), {'seen': False},
                     acl=[client.make_host_acl(name, 'rwcda')], ephemeral=True)
         self.server_records[name] = dict(spec)
+        if name not in self.down_since:
+            self.vanished.pop(name, None)
 
     def op_down(self, idx):
         """The node dies: its session expires, the presence node vanishes."""
@@ -674,8 +696,6 @@ class MasterSim(object):
                 if placed else None
         self.tick()
         masterapi.update_server_state(self.admin, name, state, apps)
-        if state == 'down':
-            self.vanished.setdefault(name, self.clock.peek())
 
     def op_app(self, proid, aff_i, demand, prio, lease, retention, group,
                traits, once, count, style):
@@ -713,6 +733,7 @@ class MasterSim(object):
                 'group': manifest.get('identity_group'),
                 'inst_traits': self.trait_mask(traits or []),
                 'once': bool(once), 'label': '_default', 'traits': 0,
+                'prio': prio,
             }
             self.app_order.append(name)
         return ids
@@ -749,6 +770,7 @@ class MasterSim(object):
             return
         self.tick()
         masterapi.update_app_priorities(self.admin, {name: prio})
+        self.decl_apps[name]['prio'] = prio
 
     def op_allocs(self, allocs):
         self.tick()
